@@ -192,13 +192,15 @@ func (sp *SAMLServiceProvider) decryptAssertions(el *etree.Element) error {
 			return fmt.Errorf("unable to create element from decrypted assertion bytes: %v", err)
 		}
 
-		// Replace the original encrypted assertion with the decrypted one.
+		// Replace the original encrypted assertion with the decrypted one,
+		// keeping its position among the other children of the Response.
+		idx := encryptedElement.Index()
 		if el.RemoveChild(encryptedElement) == nil {
 			// Out of an abundance of caution, make sure removed worked
 			panic("unable to remove encrypted assertion")
 		}
 
-		el.AddChild(doc.Root())
+		el.InsertChildAt(idx, doc.Root())
 		return nil
 	}
 
